@@ -20,6 +20,7 @@ import (
 	"strings"
 	"sync"
 	"syscall"
+	"time"
 
 	"verifharness/vutil"
 
@@ -289,6 +290,11 @@ func render(sc Script, prog string) string {
 			sb.WriteString("exec false &\n")
 		case "wait":
 			sb.WriteString("wait\n")
+		case "bgnamed":
+			// a named background command that exits on its own
+			sb.WriteString("exec true &n&\n")
+		case "waitnamed":
+			sb.WriteString("wait n\n")
 		case "skip":
 			sb.WriteString("skip\n")
 		case "stop":
@@ -372,7 +378,8 @@ func runBatch(mode string, cfg Config, strat vsched.Strategy) *RunRec {
 	os.Setenv("VERIF_CANARY", "host-secret")
 	cwd0, _ := os.Getwd()
 	env0 := strings.Join(os.Environ(), "\n")
-	p := testscript.Params{Dir: sdir, Cmds: b.cmds()}
+	// a deadline far in the future: RunT then runs its scripts under a shared context with a timeout
+	p := testscript.Params{Dir: sdir, Cmds: b.cmds(), Deadline: time.Now().Add(2 * time.Hour)}
 	if cfg.How == "workdirroot" {
 		p.WorkdirRoot = filepath.Join(gotmp, "given-root")
 		os.MkdirAll(p.WorkdirRoot, 0o777)
